@@ -79,6 +79,7 @@ def run_checks(pid, ids, tier):
             res[cid] = (p.returncode, lines[:12])
     finally:
         sh(['git', '-C', REPO, 'checkout', '--', '.'])
+        sh(['git', '-C', REPO, 'clean', '-fdq', '--', 'pmutt'])      # files the change added
         shutil.rmtree(ev, ignore_errors=True)
     return res
 
